@@ -11,6 +11,8 @@ import Acra.Model.iNET
 import Acra.Lemmas.Bits
 import Acra.Lemmas.iNET
 import Acra.Lemmas.iNETWalk
+import Acra.Lemmas.iNETFits
+import Acra.Lemmas.ReviewC09Loop
 namespace Acra.Props.C09
 open Acra.Py Acra.Model.iNET Acra.Gen.iNET Acra.Lemmas.Bits Acra.Lemmas.iNET Acra.Lemmas.Walk
 
@@ -240,5 +242,173 @@ example : (Pkg.unpack Pkg.fresh [0,0,0,1, 0,16, 0,0, 0,0,0,2, 1,2,3,4, 7,7]).2 =
 /-- observation: the header's own length word (40 above, 44 bytes present) is not compared with anything -/
 example : (unpack fresh (inetHdr 0x10 ++ [0,0,0,1, 0,16, 0,0, 0,0,0,2, 1,2,3,4] ++ [0,0,0,1, 0,12, 0,0, 0,0,0,3])).2 =
     .ok () := by rfl
+
+/-! ### the acceptance condition with a declarative package walk (`FitsPkgs`, Acra.Lemmas.iNETFits), the short-buffer
+    check as an iff, and the rejections per exception kind -/
+
+/-- one step of the declarative walk, spelled out: the package area is empty, or it starts with a complete 12-byte
+    header declaring `d ≥ 12` and the area after `d` rounded up to four fits again -/
+theorem FitsPkgs_iff (rem : Bytes) :
+    FitsPkgs rem ↔ rem = [] ∨ (12 ≤ rem.length ∧ 12 ≤ declaredPkgLen rem ∧
+      FitsPkgs (rem.drop (roundUp4 (declaredPkgLen rem)))) := by
+  constructor
+  · intro h
+    cases h with
+    | done => exact Or.inl rfl
+    | pkg _ h12 hl hn => exact Or.inr ⟨h12, hl, hn⟩
+  · rintro (rfl | ⟨h12, hl, hn⟩)
+    · exact .done
+    · exact .pkg rem h12 hl hn
+
+/-- iNET accepts a buffer exactly when it holds the 24-byte header, all the option words its first byte declares,
+    and the rest FITS: a chain of complete package headers, each declaring at least 12 bytes, walked by the declared
+    lengths.  Stated on the bytes only (`FitsPkgs` does not mention the decoder). -/
+theorem iNET_accepts_iff_fits (t : State) (buf : Bytes) :
+    (unpack t buf).2 = .ok () ↔
+      24 + 4 * declaredWc buf ≤ buf.length ∧ FitsPkgs (buf.drop (24 + 4 * declaredWc buf)) := by
+  rw [iNET_accepts_iff, fitsPkgs_iff_walk]
+
+/-- the short-buffer check (iNET.py:188) as an iff: a buffer is shorter than the 24-byte header exactly when `unpack`
+    answers `ValueError` and leaves the object untouched WHATEVER the object's prior state.  (For one particular
+    prior state the right-hand side can also hold on a long buffer — a package declaring fewer than 12 bytes also
+    raises `ValueError`, and the state it leaves may coincide with the prior one — hence the quantifier.) -/
+theorem iNET_short_iff (buf : Bytes) :
+    buf.length < 24 ↔ ∀ t : State, unpack t buf = (t, .error .value) := by
+  constructor
+  · intro h t; exact iNET_short_rejected t buf h
+  · intro h
+    by_cases h24 : buf.length < 24
+    · exact h24
+    · exfalso
+      have h1 := h { fresh with packages := [Pkg.fresh] }
+      have hp := unpack_value_packages { fresh with packages := [Pkg.fresh] } buf h24 (by rw [h1])
+      rw [h1] at hp
+      cases hp
+
+/-- the rejections, exactly and per exception kind.  `ValueError`: the buffer is shorter than 24 bytes, or — past the
+    option words — the package walk reaches a complete package header declaring fewer than 12 bytes.  `struct.error`:
+    the 24 bytes are there but not all declared option words, or the package walk reaches (with bytes left) an
+    incomplete package header.  Nothing else is possible. -/
+theorem iNET_rejects_iff (t : State) (buf : Bytes) :
+    ((unpack t buf).2 = .error .value ↔ buf.length < 24 ∨
+      (24 + 4 * declaredWc buf ≤ buf.length ∧ PkgsReject .value (buf.drop (24 + 4 * declaredWc buf)))) ∧
+    ((unpack t buf).2 = .error .struct ↔ 24 ≤ buf.length ∧ (buf.length < 24 + 4 * declaredWc buf ∨
+      PkgsReject .struct (buf.drop (24 + 4 * declaredWc buf)))) ∧
+    ((unpack t buf).2 = .ok () ∨ (unpack t buf).2 = .error .value ∨ (unpack t buf).2 = .error .struct) := by
+  by_cases h24 : buf.length < 24
+  · rw [iNET_short_rejected t buf h24]
+    exact ⟨⟨fun _ => Or.inl h24, fun _ => rfl⟩, ⟨fun h => (by cases h), fun h => (by omega)⟩, Or.inr (Or.inl rfl)⟩
+  · rw [unpack_verdict t buf h24]
+    show _ ∧ _ ∧ _
+    have hwc : optWc buf = declaredWc buf := rfl
+    rw [hwc]
+    by_cases hlt : buf.length < 24 + 4 * declaredWc buf
+    · rw [if_pos hlt]
+      refine ⟨⟨fun h => (by cases h), fun h => ?_⟩, ⟨fun _ => ⟨by omega, Or.inl hlt⟩, fun _ => rfl⟩, Or.inr (Or.inr rfl)⟩
+      rcases h with h | h
+      · omega
+      · omega
+    · rw [if_neg hlt]
+      have hloop := decPkg_loop_error_iff (buf.drop (24 + 4 * declaredWc buf))
+      cases hd : decOff decPkg moreRem (buf.drop (24 + 4 * declaredWc buf))
+          ((buf.drop (24 + 4 * declaredWc buf)).length + 1) 0 with
+      | ok ps =>
+        have hn : ∀ e, ¬ PkgsReject e (buf.drop (24 + 4 * declaredWc buf)) := by
+          intro e hr
+          have := (hloop e).2 hr
+          rw [hd] at this; cases this
+        refine ⟨⟨fun h => (by cases h), fun h => ?_⟩, ⟨fun h => (by cases h), fun h => ?_⟩, Or.inl rfl⟩
+        · rcases h with h | h
+          · omega
+          · exact absurd h.2 (hn _)
+        · rcases h.2 with h | h
+          · omega
+          · exact absurd h (hn _)
+      | error e =>
+        have hr := (hloop e).1 hd
+        rcases pkgsReject_kind e _ hr with rfl | rfl
+        · refine ⟨⟨fun h => (by cases h), fun h => ?_⟩, ⟨fun _ => ⟨by omega, Or.inr hr⟩, fun _ => rfl⟩, Or.inr (Or.inr rfl)⟩
+          rcases h with h | h
+          · omega
+          · have := (hloop .value).2 h.2
+            rw [hd] at this; cases this
+        · refine ⟨⟨fun _ => Or.inr ⟨by omega, hr⟩, fun _ => rfl⟩, ⟨fun h => (by cases h), fun h => ?_⟩, Or.inr (Or.inl rfl)⟩
+          rcases h.2 with h | h
+          · omega
+          · have := (hloop .struct).2 h
+            rw [hd] at this; cases this
+
+/-- witnesses for `iNET_accepts_iff_fits`: two packages, the first declaring 17 bytes (5 data + 3 pad), the second 12 -/
+example : FitsPkgs [0,0,0,1, 0,17, 0,0, 0,0,0,2, 1,2,3,4,5, 0,0,0,   0,0,0,2, 0,12, 0,0, 0,0,0,3] :=
+  .pkg _ (by decide) (by decide) (.pkg _ (by decide) (by decide) .done)
+example : 24 + 4 * declaredWc (inetHdr 0x11 ++ [9,9,9,9] ++ [0,0,0,1, 0,16, 0,0, 0,0,0,2, 1,2,3,4]) ≤
+      (inetHdr 0x11 ++ [9,9,9,9] ++ [0,0,0,1, 0,16, 0,0, 0,0,0,2, 1,2,3,4]).length ∧
+    (inetHdr 0x11 ++ [9,9,9,9] ++ [0,0,0,1, 0,16, 0,0, 0,0,0,2, 1,2,3,4]).drop
+      (24 + 4 * declaredWc (inetHdr 0x11 ++ [9,9,9,9] ++ [0,0,0,1, 0,16, 0,0, 0,0,0,2, 1,2,3,4])) =
+      [0,0,0,1, 0,16, 0,0, 0,0,0,2, 1,2,3,4] := by decide
+example : FitsPkgs [0,0,0,1, 0,16, 0,0, 0,0,0,2, 1,2,3,4] := .pkg _ (by decide) (by decide) .done
+/-- one witness per constructor of `PkgsReject`: a package declaring 11 bytes (`ValueError`); 4 stray bytes after a
+    complete package (`struct.error`, reached through `later`) -/
+example : PkgsReject .value [0,0,0,1, 0,11, 0,0, 0,0,0,0] := .small _ (by decide) (by decide) rfl
+example : PkgsReject .struct [0,0,0,1, 0,12, 0,0, 0,0,0,0, 1,2,3,4] :=
+  .later _ (by decide) (by decide) (.short _ (by decide) (by decide) rfl)
+/-- … and the decoder's verdicts on whole messages agree: every outcome of `iNET_rejects_iff` is reachable -/
+example : (unpack fresh (inetHdr 0x10 ++ [0,0,0,1, 0,11, 0,0, 0,0,0,0])).2 = .error .value := by rfl
+example : (unpack fresh (inetHdr 0x10 ++ [0,0,0,1, 0,12, 0,0, 0,0,0,0, 1,2,3,4])).2 = .error .struct := by rfl
+/-- `iNET_short_iff`, right to left is not idle: on a 36-byte buffer whose package declares 11 bytes the answer is
+    `ValueError` too, but the object is changed (the sequence number 1 of the header has been stored) -/
+example : (unpack fresh (inetHdr 0x10 ++ [0,0,0,1, 0,11, 0,0, 0,0,0,0])).1.sequence = 1 := by rfl
+
+/-- what an accepted iNET message returns, package by package (`area` = the bytes after the 24-byte header and the option
+    words): every package object was decoded at some offset `o` of the package area where a complete 12-byte header
+    declaring `d ≥ 12` stands; its `_length` is `d` and its payload exactly `area[o+12 : o+d]` — clamped at the end of the
+    area: nothing that is not in the buffer is returned, but a declared length pointing past the end IS accepted with a
+    shorter payload (observation F2, notes/fti.md) -/
+theorem iNET_accepted_every_package (t : State) (buf : Bytes) (h : (unpack t buf).2 = .ok ()) :
+    ∀ p ∈ (unpack t buf).1.packages, ∃ o,
+      o + 12 ≤ (buf.drop (24 + 4 * declaredWc buf)).length ∧
+      12 ≤ declaredPkgLen ((buf.drop (24 + 4 * declaredWc buf)).drop o) ∧
+      p.length = declaredPkgLen ((buf.drop (24 + 4 * declaredWc buf)).drop o) ∧
+      p.payload = slice ((buf.drop (24 + 4 * declaredWc buf)).drop o) 12
+        (declaredPkgLen ((buf.drop (24 + 4 * declaredWc buf)).drop o)) := by
+  have h24 : ¬ buf.length < 24 := by
+    intro hlt
+    rw [iNET_short_rejected t buf hlt] at h
+    cases h
+  have hh : ∃ ty fl di sq ln ps pn, structUnpackFrom INET_HEADER_FORMAT buf 0 =
+      .ok [beNat (buf.take 1), ty, fl, di, sq, ln, ps, pn] := by
+    simp only [structUnpackFrom, INET_HEADER_FORMAT, Fmt.size, codesSize, Code.size, unpackCodes, decInt, List.drop_zero]
+    have : 0 + (1 + (1 + (2 + (4 + (4 + (4 + (4 + (4 + 0)))))))) ≤ buf.length := by omega
+    simp only [this, if_true]
+    exact ⟨_, _, _, _, _, _, _, rfl⟩
+  obtain ⟨ty, fl, di, sq, ln, ps, pn, hh⟩ := hh
+  revert h
+  simp only [unpack, INET_HEADER_LENGTH, h24, if_false, hh, and_F, declaredWc,
+    Nat.mul_comm (beNat (List.take 1 buf) % 16) 4]
+  split
+  · intro h; cases h
+  · rename_i af _
+    split
+    · rename_i pk hd
+      simp only
+      intro _ p hp
+      have hw := Acra.Lemmas.ReviewC09.decOff_ok_walk _ _ _ _ _ _ hd
+      obtain ⟨o, n, _, _, hdec⟩ := Acra.Lemmas.ReviewC09.walk_mem _ _ _ _ _ hw p hp
+      obtain ⟨hok, _⟩ := (decPkg_walk_step _ _ _ hdec)
+      refine ⟨o, ?_, hok.2, ?_, ?_⟩
+      · have := hok.1
+        simp only [List.length_drop] at this ⊢
+        omega
+      · rw [decPkg, Pkg_unpack_closed Pkg.fresh _ hok.1 hok.2] at hdec
+        simp only [Except.ok.injEq, Prod.mk.injEq] at hdec
+        rw [← hdec.1]; rfl
+      · rw [decPkg, Pkg_unpack_closed Pkg.fresh _ hok.1 hok.2] at hdec
+        simp only [Except.ok.injEq, Prod.mk.injEq] at hdec
+        rw [← hdec.1]; rfl
+    · intro h; cases h
+
+/-- witness: the accepted message with one option word returns one package: `_length` 16, payload the 4 bytes after its header -/
+example : (unpack fresh (inetHdr 0x11 ++ [9,9,9,9] ++ [0,0,0,1, 0,16, 0,0, 0,0,0,2, 1,2,3,4])).1.packages.map
+    (fun p => (p.length, p.payload)) = [(16, [1,2,3,4])] := by rfl
 
 end Acra.Props.C09
